@@ -65,7 +65,7 @@ ASSUMPTIONS = [
     "attachment and event tolerances are these propagated through the Gaussian / Weibull formulas in float64; a dropped "
     "or mis-signed compensation is >= 3 orders of magnitude larger on every non-trivial case",
     "ortho/basis tolerance: |<row, G d>| <= 1e-5 * (sum_i |beta_ij| |q_i|) * |G d| (float32 Householder, dimension <= 4)",
-    "basis: a direction whose stripped component (G v)[strip_col] is 0 (|.| <= 1e-6 |G v|) is outside the domain (velocities and "
+    "basis: a direction whose stripped component (G v)[strip_col] is 0 (or cancels to rounding level inside G @ v) is outside the domain (velocities and "
     "metrics of the models are strictly positive); 2D metrics are symmetric positive definite",
     "the closed form of the trajectories themselves is C09's subject, the likelihood formulas are C08's",
     "hash order fixed (PYTHONHASHSEED=0), single torch thread",
@@ -439,6 +439,10 @@ def run_gauge(case):
 # ------------------------------------------------------------------------------------------ ortho
 
 A_LOG_V0 = [-3.5, -2.5, -1.0]
+# slow velocities (time unit = days, slowly progressing scores) and mixed slow / fast scales inside one vector:
+# orthogonality is a statement about directions, it must hold at every scale of the velocity vector
+A_LOG_V0_SLOW = [-14.0, -12.0, -9.0]
+A_LOG_V0_MIXED = [-13.0, -6.0, 2.0]
 A_LOG_G = [-0.5, 0.5, 1.5]
 A_G_LIN = [0.0, 0.3, 0.8]
 A_DELTA = [-0.5, 0.0, 0.8]
@@ -490,18 +494,19 @@ def ortho_points(spec, tier):
                 yield {"log_g": [lg], "deltas": list(de)}
         return
     pos_name, pos_alpha = ("g", A_G_LIN) if kind == "linear" else ("log_g", A_LOG_G)
-    for lv in itertools.product(A_LOG_V0, repeat=dim):
-        if kind == "linear":
-            # positions do not enter the linear model's metric: one non-constant position vector per velocity vector
-            yield {"log_v0": list(lv), "g": [A_G_LIN[(i + 1) % 3] for i in range(dim)]}
-            continue
-        if dim == 4 and tier != "thorough_full":
-            # dimension 4: positions from the alphabet on a Latin-square style sub-product (3^4 velocities x 9 positions)
-            for a, b in itertools.product(range(3), repeat=2):
-                yield {"log_v0": list(lv), pos_name: [pos_alpha[(a + i * b) % 3] for i in range(dim)]}
-            continue
-        for lg in itertools.product(pos_alpha, repeat=dim):
-            yield {"log_v0": list(lv), pos_name: list(lg)}
+    for set_i, vel_alpha in enumerate((A_LOG_V0, A_LOG_V0_SLOW, A_LOG_V0_MIXED)):
+        for lv in itertools.product(vel_alpha, repeat=dim):
+            if kind == "linear":
+                # positions do not enter the linear model's metric: one non-constant position vector per velocity vector
+                yield {"log_v0": list(lv), "g": [A_G_LIN[(i + 1) % 3] for i in range(dim)]}
+                continue
+            if dim == 4 or (set_i > 0 and dim == 3 and tier == "quick"):
+                # positions from the alphabet on a Latin-square style sub-product (9 position vectors per velocity vector)
+                for a, b in itertools.product(range(3), repeat=2):
+                    yield {"log_v0": list(lv), pos_name: [pos_alpha[(a + i * b) % 3] for i in range(dim)]}
+                continue
+            for lg in itertools.product(pos_alpha, repeat=dim):
+                yield {"log_v0": list(lv), pos_name: list(lg)}
 
 
 def ortho_cases(spec, tier):
@@ -615,17 +620,36 @@ def spd_matrices(dim):
     return out
 
 
+B_SCALES = [1e-6, 1e5]
+B_VEL_SMALL = [0.05, 1.0, -2.0]
+
+
+def _basis_metrics(tier, dim, reduced):
+    metrics = [("0D", g) for g in B_G0]
+    g1_alpha = B_G1 if (dim <= 2 or tier == "thorough") and not reduced else B_G1[::2]
+    if (dim <= 3 or tier == "thorough") and not reduced:
+        metrics += [("1D", list(g)) for g in itertools.product(g1_alpha, repeat=dim)]
+    else:
+        metrics += [("1D", [g1_alpha[(a + i * b) % len(g1_alpha)] for i in range(dim)]) for a in range(2) for b in range(2)]
+    metrics += [("2D", mtx) for mtx in spd_matrices(dim)]
+    return metrics
+
+
 def basis_cases(tier, dim):
     vel_alpha = B_VEL if (dim <= 3 or tier == "thorough") else B_VEL[1:]
     for v in itertools.product(vel_alpha, repeat=dim):
-        metrics = [("0D", g) for g in B_G0]
-        g1_alpha = B_G1 if dim <= 2 or tier == "thorough" else B_G1[::2]
-        metrics += [("1D", list(g)) for g in itertools.product(g1_alpha, repeat=dim)] if dim <= 3 or tier == "thorough" else \
-            [("1D", [g1_alpha[(a + i * b) % len(g1_alpha)] for i in range(dim)]) for a in range(2) for b in range(2)]
-        metrics += [("2D", mtx) for mtx in spd_matrices(dim)]
-        for form, g in metrics:
+        for form, g in _basis_metrics(tier, dim, False):
             for col in range(dim):
                 yield {"part": "basis", "v": list(v), "metric_form": form, "G": g, "strip_col": col}
+    # the same directions at very small / very large norms, and mixed scales inside one vector (scale-freeness)
+    for base in itertools.product(B_VEL_SMALL, repeat=dim):
+        vs = [[x * sc for x in base] for sc in B_SCALES]
+        vs.append([x * 10.0 ** (-3 * k) for k, x in enumerate(base)])
+        vs.append([x * 10.0 ** (-7 + 3 * k) for k, x in enumerate(base)])
+        for v in vs:
+            for form, g in _basis_metrics(tier, dim, True):
+                for col in range(dim):
+                    yield {"part": "basis", "v": [float(np.float32(x)) for x in v], "metric_form": form, "G": g, "strip_col": col}
 
 
 def run_basis(case):
@@ -639,7 +663,9 @@ def run_basis(case):
     feat = f"{form} metric" + (", strip_col > 0" if col else "")
     out = {"violations": [], "ratios": {}, "nontrivial": dim >= 2}
     V = out["violations"]
-    if abs(float(nvec[col])) <= 1e-6 * float(np.linalg.norm(nvec)):
+    # outside the domain: the stripped component of G.v is zero (for a 2D metric: cancelled to rounding level inside G @ v)
+    mag = float(np.abs(G64[col]) @ np.abs(v)) if form == "2D" else abs(float(nvec[col]))
+    if nvec[col] == 0.0 or abs(float(nvec[col])) <= 1e-6 * mag:
         out["outcome"] = "basis:outside domain (stripped component is 0)"
         out["nontrivial"] = False
         out["skipped"] = True
@@ -677,6 +703,8 @@ def run_basis(case):
 
 TG_DT = [-5.0, 0.0, 8.0]
 TG_XI = [0.0, 0.4]
+TG_LOG_V0_SLOW = [-14.0, -12.0, -9.0, -13.0]
+TG_LOG_V0_MIXED = [-13.0, 0.5, -6.0, -2.5]
 
 
 def tangent_cases(tier):
@@ -691,8 +719,11 @@ def tangent_cases(tier):
                     spec = {"kind": kind, "dim": dim, "ns": ns, "noise": "gaussian-diagonal", "variant": v}
                     ax = pop_axes(spec)
                     ax.pop("n_log_nu", None)
-                    for alt in (0, 1):
-                        pop = {k: vals[alt] for k, vals in ax.items()}
+                    pops = [{k: vals[alt] for k, vals in ax.items()} for alt in (0, 1)]
+                    if "log_v0" in ax:  # slow velocities / mixed slow and fast velocities in one vector
+                        pops.append(dict(pops[0], log_v0=TG_LOG_V0_SLOW[:dim]))
+                        pops.append(dict(pops[1], log_v0=TG_LOG_V0_MIXED[:dim]))
+                    for pop in pops:
                         for dt in TG_DT:
                             for xi in TG_XI:
                                 for src_i in (0, 1):
@@ -780,12 +811,13 @@ def bounds(tier):
         },
         "ortho": {
             "kinds": list(SOURCE_KINDS), "dimension": "2..3" if tier == "quick" else "2..4", "sources": "1..dimension-1",
-            "log_v0": A_LOG_V0, "log_g": A_LOG_G, "deltas": A_DELTA, "betas": f"{A_BETA} (full product when <= 2 entries"
+            "log_v0": [A_LOG_V0, A_LOG_V0_SLOW, A_LOG_V0_MIXED], "log_g": A_LOG_G, "deltas": A_DELTA, "betas": f"{A_BETA} (full product when <= 2 entries"
             + (" or dimension <= 3" if tier == "thorough" else "") + ", else 7-8 structured matrices)",
             "source vectors": f"{A_SRC}^ns",
         },
-        "basis": {"dimension": "1..4", "v": B_VEL, "metric": {"0D": B_G0, "1D": B_G1, "2D": "3 SPD matrices"}, "strip_col": "all"},
+        "basis": {"dimension": "1..4", "v": B_VEL, "v rescaled": {"alphabet": B_VEL_SMALL, "uniform scales": B_SCALES, "mixed": "x_k*10^(-3k), x_k*10^(-7+3k)"}, "metric": {"0D": B_G0, "1D": B_G1, "2D": "3 SPD matrices"}, "strip_col": "all"},
         "tangent": {"kinds": list(SOURCE_KINDS), "t - tau": TG_DT, "xi": TG_XI, "sources": "0 and a non-zero vector",
+                    "log_v0 also": [TG_LOG_V0_SLOW, TG_LOG_V0_MIXED],
                     "population": "base / alternative vectors, variants " + ("0" if tier == "quick" else "0..2")},
     }
 
